@@ -157,6 +157,12 @@ def record_case(seed):
             ee = cog.calc_ee_at_radius(rr)
             back = cog.calc_radius_at_ee(ee)
             ee_ok = bool(np.allclose(back, rr, rtol=1e-6, atol=1e-6))
+            # the same image in physical flux units (exact power-of-two factor): the interpolators still invert each other
+            k = [2.0 ** -60, 2.0 ** -55, 2.0 ** 40][seed % 3]
+            cs = CurveOfGrowth(d * k, xy, rpos, error=None if e is None else e * k, mask=mask, method=method, subpixels=sub)
+            if np.all(np.diff(np.array(cs.profile, dtype=float)) > 0):
+                back_s = cs.calc_radius_at_ee(cs.calc_ee_at_radius(rr))
+                ee_ok = ee_ok and bool(np.allclose(back_s, rr, rtol=1e-6, atol=1e-6))
     except Exception:  # noqa
         ee_ok = False
     rec.update(cog_nan=[bool(np.isnan(v)) for v in cf], ap_nan=[bool(np.isnan(v)) for v in af],
